@@ -356,6 +356,29 @@ def finish(ctx, rets, I, where):
         ck.ok("C11.finish", "api=step", n_end + n_sig)
 
 
+def copies_signal_flag(b, op, depth=0):
+    """operand `op` is a copy of some error's signals_normal_finish field: read directly, through a local that was
+    assigned such a copy, or through a reference to the field (`let Self { signals_normal_finish, .. } = self`)"""
+    if depth > 4 or op[0] not in ("c", "m"):
+        return False
+    loc, proj = op[1][0], op[1][1]
+    if any(isinstance(e, list) and e[0] == "f" and e[2] == "signals_normal_finish" for e in proj):
+        return True
+    if any(e != "*" for e in proj):
+        return False
+    defs = [s2 for b2 in b["blocks"] for s2 in b2["s"] if s2[0] == "a" and s2[1][0] == loc and not s2[1][1]]
+    if not defs:
+        return False
+    for s2 in defs:
+        rv = s2[2]
+        if rv[0] == "use" and copies_signal_flag(b, rv[1], depth + 1):
+            continue
+        if rv[0] == "ref" and any(isinstance(e, list) and e[0] == "f" and e[2] == "signals_normal_finish" for e in rv[2][1]):
+            continue
+        return False
+    return True
+
+
 def monotone_or(b, val, depth=0):
     """`finished |= x` / `finished = finished | x`: the stored value is an OR with the flag's current value, so the
     store can set the flag but never clear it"""
@@ -429,8 +452,7 @@ def writers(ctx):
                         ck.ok("C11.writers", inst)
                     elif val[0] == "use" and val[1][0] == "k" and val[1][1].get("v") == 0:
                         ck.ok("C11.writers", inst)
-                    elif val[0] == "use" and val[1][0] in ("c", "m") and any(isinstance(e, list) and e[0] == "f" and e[2] == "signals_normal_finish"
-                                                                            for e in val[1][1][1]):
+                    elif val[0] == "use" and copies_signal_flag(b, val[1]):
                         ck.ok("C11.writers", inst)
                     else:
                         ck.violation("C11.writers", inst, "signals_normal_finish is set from a computed value", where=F.site_str(b, st[3]))
@@ -451,6 +473,8 @@ def writers(ctx):
                                 if s2[0] == "a" and s2[1][0] == v[1][0] and not s2[1][1] and s2[2][0] == "use" and s2[2][1][0] in ("c", "m") \
                                         and any(isinstance(e, list) and e[0] == "f" and e[2] == "signals_normal_finish" for e in s2[2][1][1][1]):
                                     copies_flag = True
+                    if not copies_flag and not const_false and not const_true:
+                        copies_flag = copies_signal_flag(b, v)
                     if const_false:
                         ck.ok("C11.writers", inst)
                     elif const_true:
